@@ -35,14 +35,15 @@ COVERED BY THEOREMS
      Conformally_flat / Non_diagonal: dxOmega, dxdxOmega / dzA, dzdzA are the
      derivatives of Omega / A (inputs of their Tdown4).
 
+  T4 (Props/C17Einstein.lean, part 2) Einstein's equations G + Λg = κT, all ten components, for EdS, LCDM,
+     Conformally_flat, Schwarzschild_isotropic (vacuum, + its Kretschmann closed form), Harvey_Tsoubelis
+     (vacuum), Collins_Stewart, Rosquist_Jantzen, Non_diagonal (true with the coefficient 1/12, FALSE
+     with the module's 0.0833333: both proven), Szekeres (derivative property of the jet under the
+     hypothesis of T2-zz).
+
 NOT COVERED BY A THEOREM — numerical sentinel only (tools/props/C17.py)
-  * Einstein's equations G + Λg = κT for Tdown4 / rho / press of Non_diagonal,
-    Rosquist_Jantzen, Collins_Stewart, Conformally_flat, Szekeres (and vacuum
-    for Schwarzschild_isotropic, Harvey_Tsoubelis; the ij equations of LCDM).
-    With coefficients such as 0.0833333 (Non_diagonal pressure) the equations
-    hold only to ≈ 4·10⁻⁷, so the exact statement is false as written.
-  * Schwarzschild Kretschmann scalar and null_ray_exp_out versus the metric.
-  * The hypergeometric antiderivative used by Szekeres (hypothesis of T2-zz).
+  * null_ray_exp_out versus the metric.
+  * The hypergeometric antiderivative used by Szekeres (hypothesis of T2-zz and of T4-Szekeres).
   * ICPertFLRW beyond the above (first-order constraint, LCDM growth index).
 -/
 import AurelVerif.Lemmas.Solutions
